@@ -10,6 +10,7 @@ import Drx.Snd
 import Drx.SndSpec
 import DrxProofs.Py
 import DrxProofs.Snd
+import DrxProofs.SndMulti
 namespace Drx.C07
 open Drx Drx.Snd Drx.SndSpec
 
@@ -93,6 +94,63 @@ theorem decode_ignores_the_rest (s s' : Snd) (hv : Valid s) (hv' : Valid s')
     sndToSampled (encode s) = sndToSampled (encode s') := by
   rw [Drx.Snd.decode_encode s hv, Drx.Snd.decode_encode s' hv']
   simp [expected, hc, hb, hr, hs]
+
+/-! ## resources with several sound commands
+
+  The property speaks about a resource holding *a* sampled sound (one sound command after any number of null commands);
+  that is `decode_encode`. Format 1 also allows several sound commands. `snd_to_sampled` runs them all on one
+  `SampledSound`: frames are appended, each header overwrites the rate, an extended header also overwrites channel
+  count and width, a standard header leaves them as they are. What C07 claims for such resources is `decode_multi`:
+  when all sounds have ONE sample format the result is that format and the concatenation of the sample areas.
+  For mixed formats no single (rate, channels, width) describes the stream and C07 claims nothing; what the code
+  does there is pinned down by `mixed_formats_inherit` (and compared with the real code on every run). -/
+
+/-- two null commands, a standard header (mono 8-bit), a null command, an extended mono 8-bit header: one format -/
+def exampleMulti : Multi :=
+  ⟨.fmt1 [[0, 5, 0, 0, 0, 0x80]],
+   [.null [1, 2, 3, 4, 5, 6], .null [0, 0, 0, 0, 0, 0],
+    .sound ⟨false, [0, 0], 22254, [0x80, 0], List.replicate 8 0, .standard, [0x10, 0x20, 0x30], [0xEE]⟩,
+    .null [9, 9, 9, 9, 9, 9],
+    .sound ⟨true, [7, 7], 11127, [0, 0], List.replicate 8 1, .extended 1 2 8 (List.replicate 10 3) (List.replicate 12 4) (List.replicate 14 5),
+      [0x40, 0x50], []⟩],
+   [0xAA, 0xBB]⟩
+
+example : exampleMulti.Valid ∧ Homogeneous exampleMulti 1 8 ∧ partsOf exampleMulti.items ≠ [] := by decide +kernel
+
+/-- **several sound commands, one sample format**: for EVERY valid resource (either format, any data-type records, any
+    number of sound commands — bufferCmd or soundCmd, standard or extended headers — interleaved with any number of
+    null commands, any gaps between the parts) whose sounds all have `c` channels and `b` bits, the decoder reports
+    `c`, `b`, the rate of the last header, and exactly the concatenation of the sample areas (each swapped when 16-bit).
+    Unbounded induction over the command table and over the parts. -/
+theorem decode_multi (m : Multi) (hv : m.Valid) (c b : Nat) (hh : Homogeneous m c b) (hne : partsOf m.items ≠ []) :
+    sndToSampled (encodeMulti m) = .ok (expectedMulti m c b) :=
+  decode_encodeMulti m hv c b hh hne
+
+example : sndToSampled (encodeMulti exampleMulti) = .ok ⟨1, 8, 11127, [0x10, 0x20, 0x30, 0x40, 0x50]⟩ :=
+  decode_multi exampleMulti (by decide +kernel) 1 8 (by decide +kernel) (by decide +kernel)
+
+/-- a 16-bit stereo extended header (one frame) followed by a standard header with two 8-bit samples and two more bytes -/
+def mixedMulti : Multi :=
+  ⟨.fmt1 [],
+   [.sound ⟨false, [0, 0], 44100, [0, 0], List.replicate 8 0, .extended 2 1 16 (List.replicate 10 0) (List.replicate 12 0) (List.replicate 14 0),
+      [1, 2, 3, 4], []⟩,
+    .sound ⟨false, [0, 0], 11025, [0, 0], List.replicate 8 0, .standard, [0x80, 0x81], [0xAA, 0xBB]⟩],
+   []⟩
+
+set_option maxRecDepth 8000 in
+/-- outside what C07 claims (mixed formats): the standard header inherits 16 bits / 2 channels from the extended one, so
+    its two 8-bit samples AND the two bytes behind them are read as two little-endian-swapped words, and the result is
+    reported as stereo 16-bit at the second header's rate. The real code does exactly this (harness kind `multi-mixed`). -/
+theorem mixed_formats_inherit :
+    mixedMulti.Valid ∧ ¬ (∃ c b, Homogeneous mixedMulti c b) ∧
+    sndToSampled (encodeMulti mixedMulti) = .ok ⟨2, 16, 11025, [2, 1, 4, 3, 0x81, 0x80, 0xBB, 0xAA]⟩ := by
+  refine ⟨by decide +kernel, ?_, by rfl⟩
+  intro ⟨c, b, h⟩
+  have h1 := h ⟨false, [0, 0], 44100, [0, 0], List.replicate 8 0, .extended 2 1 16 (List.replicate 10 0) (List.replicate 12 0) (List.replicate 14 0),
+      [1, 2, 3, 4], []⟩ (by simp [mixedMulti, partsOf])
+  have h2 := h ⟨false, [0, 0], 11025, [0, 0], List.replicate 8 0, .standard, [0x80, 0x81], [0xAA, 0xBB]⟩ (by simp [mixedMulti, partsOf])
+  simp [Header.channels] at h1 h2
+  omega
 
 /-! ## WAV -/
 
